@@ -505,6 +505,18 @@ impl Array {
 
 impl Display for Object {
     fn fmt(&self, f: &mut std::fmt::Formatter<'_>) -> std::fmt::Result {
+        self.fmt_with_path(f, &mut Vec::new())
+    }
+}
+
+impl Object {
+    /// Formats this object, where `path` holds the arrays that are currently being formatted
+    /// An array that (indirectly) contains itself is printed as `[...]` instead of recursing forever
+    fn fmt_with_path(
+        &self,
+        f: &mut std::fmt::Formatter<'_>,
+        path: &mut Vec<*mut u8>,
+    ) -> std::fmt::Result {
         match self.tag() {
             Type::Null => (),
             Type::Bool => f.write_str(if self.as_bool() { "ja" } else { "nee" })?,
@@ -512,15 +524,21 @@ impl Display for Object {
             Type::Int => f.write_str(&self.as_int().to_string())?,
             Type::String => unsafe { f.write_str(self.as_str_unchecked())? },
             Type::Array => {
+                if path.contains(&self.as_ptr()) {
+                    return f.write_str("[...]");
+                }
+                path.push(self.as_ptr());
+
                 let values = unsafe { self.as_vec_unchecked() };
                 f.write_char('[')?;
                 for (i, obj) in values.iter().enumerate() {
                     if i > 0 {
                         f.write_str(", ")?;
                     }
-                    std::fmt::Display::fmt(&obj, f)?;
+                    obj.fmt_with_path(f, path)?;
                 }
                 f.write_char(']')?;
+                path.pop();
             }
             Type::Function => f.write_str("functie")?,
         }
